@@ -4,10 +4,12 @@ using namespace cocls;
 struct mx_access : public mutex {
     using mutex::ready; using mutex::subscribe; using mutex::build_queue; using mutex::value;
 };
+// build_queue through a signature-tolerant helper: a rewrite that changes its parameter list must leave the other units decidable (seeded change C07-7)
+template<typename M> static void c07_call_build_queue(M *m, awaiter *stop) { if constexpr (requires { m->build_queue(stop); }) m->build_queue(stop); else m->build_queue(); }
 extern "C" {
 bool drv_ready(mx_access *m) { return m->ready(); }
 bool drv_subscribe(mx_access *m, awaiter *a) { return m->subscribe(a); }
-void drv_build_queue(mx_access *m, awaiter *stop) { m->build_queue(stop); }
+void drv_build_queue(mx_access *m, awaiter *stop) { c07_call_build_queue(m, stop); }
 void drv_release(suspend_point<void> *out, mutex::ownership *o) { new(out) suspend_point<void>(o->release()); }
 void drv_ownership_dtor(mutex::ownership *o) { o->~ownership(); }
 void drv_try_lock(mutex::ownership *out, mutex *m) { new(out) mutex::ownership(m->try_lock()); }
